@@ -188,7 +188,7 @@ def judge(nb, nd, case, line):
         n = nb + nd
         for a in range(n):
             for b in range(a + 1, n):
-                if sp.live[a] and sp.live[b] and sp.same_type(a, b):
+                if sp.live[a] and sp.live[b]:      # same-type and mixed-type pairs alike
                     exp.append("e" if ptrs[a] == ptrs[b] else "n")
         if "".join(exp) != cmps:
             return "step %d (%s): comparisons %r, required %r (==, !=, < must follow object identity)" % (i, tok, cmps, "".join(exp))
@@ -395,6 +395,8 @@ HAND = [   # the histories the design calls out
     "cD rc:3:0 dc:0 va:0:3 rd:0 dt:0 dt:3",        # base = derived
     "cD rc:3:0 rd:0 kc:3 dt:3",                    # IntrusivePtr<const Base> c = std::move(d)
     "cB rc:0:0 rd:0 kc:0 dt:0",
+    # mixed-type comparisons: the same object through a Base and a Derived handle (Base at a non-zero offset); two different objects
+    "cD cD rc:3:0 vc:0:3 rc:1:1 rc:4:1 dc:2",
 ]
 
 
